@@ -238,7 +238,7 @@ structure Obj where
   stop : Int
   cache : List (Prim × Ans)
   gen : Nat                   -- identity of the `_cache` dict (bumped when it is replaced)
-  parent : Nat                -- index of the object the factories close over (meaningful if mode ≠ root)
+  chain : List Nat            -- the objects the factory closures close over: parent, its parent, …
   mode : Mode
   xf : Nat                    -- label of the derivation that made the object
   path : List Nat             -- labels of all derivations from the source
@@ -305,27 +305,51 @@ def defaultPrim (f : File) (o : Obj) : Prim → Obj × Ans
   | .image c => defaultImage f o c
   | .ts r => defaultTs f o r allColors
 
-/-- One `method_cache`d call `obj[i].<p>`: (heap after, answer). -/
-def evalPrim (f : File) : Nat → Heap → Nat → Prim → Heap × Ans
-  | 0, h, _, _ => (h, .dead)
-  | fuel + 1, h, i, p =>
-    match h[i]? with
-    | none => (h, .dead)
-    | some o =>
-      match lookup o.cache p with
-      | some v => (h, v)
-      | none =>
-        let g := o.gen
-        let (h1, v) : Heap × Ans :=
-          match route o.mode p with
-          | .default => let (o', v) := defaultPrim f o p; (setObj h i o', v)
-          | .parent q => let (h', v) := evalPrim f fuel h o.parent q; (h', .app o.xf v)
-          | .self q => let (h', v) := evalPrim f fuel h i q; (h', .via p v)
-          | .illDefined => (h, .err .notImpl)
-        if v.isErr then (h1, v)
-        else match h1[i]? with
-          | none => (h1, v)
-          | some o1 => if o1.gen = g then (setObj h1 i { o1 with cache := (p, v) :: o1.cache }, v) else (h1, v)
+/-- `cachedmethod` stores the result in the dict it fetched before the call (`g` = its identity); exceptions
+    are not stored. -/
+def storeAns (h : Heap) (i : Nat) (p : Prim) (g : Nat) (v : Ans) : Heap × Ans :=
+  if v.isErr then (h, v)
+  else match h[i]? with
+    | none => (h, v)
+    | some o1 => if o1.gen = g then (setObj h i { o1 with cache := (p, v) :: o1.cache }, v) else (h, v)
+
+/-- One `method_cache`d quantity of object `i` whose factory is the default one, a closure over the parent
+    (`up` evaluates a quantity of the parent) or ill-defined. -/
+def evalOne (f : File) (up : Heap → Prim → Heap × Ans) (h : Heap) (i : Nat) (p : Prim) : Heap × Ans :=
+  match h[i]? with
+  | none => (h, .dead)
+  | some o =>
+    match lookup o.cache p with
+    | some v => (h, v)
+    | none =>
+      match route o.mode p with
+      | .default => storeAns (setObj h i (defaultPrim f o p).1) i p o.gen (defaultPrim f o p).2
+      | .parent q => storeAns (up h q).1 i p o.gen (.app o.xf (up h q).2)
+      | .illDefined => (h, .err .notImpl)
+      | .self _ => (h, .dead)
+
+/-- `obj[i].<p>`, including quantities computed from another cached quantity of the same object. -/
+def evalAt (f : File) (up : Heap → Prim → Heap × Ans) (h : Heap) (i : Nat) (p : Prim) : Heap × Ans :=
+  match h[i]? with
+  | none => (h, .dead)
+  | some o =>
+    if !o.alive then (h, .dead)
+    else match route o.mode p with
+      | .self q =>
+        match lookup o.cache p with
+        | some v => (h, v)
+        | none => storeAns (evalOne f up h i q).1 i p o.gen (.via p (evalOne f up h i q).2)
+      | _ => evalOne f up h i p
+
+/-- One `method_cache`d call `obj[i].<p>`: (heap after, answer).  `chain` = the closure chain of object `i`. -/
+def evalPrim (f : File) : List Nat → Heap → Nat → Prim → Heap × Ans
+  | [], h, i, p => evalAt f (fun h _ => (h, .dead)) h i p
+  | par :: rest, h, i, p => evalAt f (fun h q => evalPrim f rest h par q) h i p
+
+def evalTop (f : File) (h : Heap) (i : Nat) (p : Prim) : Heap × Ans :=
+  match h[i]? with
+  | none => (h, .dead)
+  | some o => evalPrim f o.chain h i p
 
 /-! ### queries -/
 
@@ -338,8 +362,6 @@ inductive Query
   | duration         -- Kymo.duration: line time, then shape
   | numFrames
 deriving DecidableEq, Repr
-
-def fuelOf (h : Heap) : Nat := 2 * h.length + 2
 
 def numFrames (h : Heap) (i : Nat) : Heap × Ans :=
   match h[i]? with
@@ -360,17 +382,17 @@ def query (f : File) (h : Heap) (i : Nat) (q : Query) : Heap × Ans :=
       | .start => (h, .int o.start)
       | .stop => (h, .int o.stop)
       | .infowave => (h, .iw o.start o.stop)
-      | .prim p => evalPrim f (fuelOf h) h i p
+      | .prim p => evalTop f h i p
       | .lineRanges =>
-        let (h1, a) := evalPrim f (fuelOf h) h i (.ts .min)
+        let (h1, a) := evalTop f h i (.ts .min)
         if a.isErr then (h1, a)
-        else let (h2, b) := evalPrim f (fuelOf h) h1 i (.ts .max); (h2, if b.isErr then b else .pair a b)
+        else let (h2, b) := evalTop f h1 i (.ts .max); (h2, if b.isErr then b else .pair a b)
       | .shape =>
-        if f.isScan then numFrames h i else evalPrim f (fuelOf h) h i (.image .red)
+        if f.isScan then numFrames h i else evalTop f h i (.image .red)
       | .duration =>
-        let (h1, a) := evalPrim f (fuelOf h) h i .lineTime
+        let (h1, a) := evalTop f h i .lineTime
         if a.isErr then (h1, a)
-        else let (h2, b) := evalPrim f (fuelOf h) h1 i (.image .red); (h2, if b.isErr then b else .pair a b)
+        else let (h2, b) := evalTop f h1 i (.image .red); (h2, if b.isErr then b else .pair a b)
       | .numFrames => numFrames h i
 
 /-! ### derivations -/
@@ -388,7 +410,7 @@ inductive Derive
 deriving DecidableEq, Repr
 
 def deadObj : Obj :=
-  { start := 0, stop := 0, cache := [], gen := 0, parent := 0, mode := .root, xf := 0, path := [], frames := none,
+  { start := 0, stop := 0, cache := [], gen := 0, chain := [], mode := .root, xf := 0, path := [], frames := none,
     alive := false }
 
 def copyObj (o : Obj) (x : Nat) : Obj :=
@@ -421,16 +443,16 @@ def derive (f : File) (h : Heap) (i : Nat) (x : Nat) (d : Derive) : Heap × Ans 
       | .placeholder => (h ++ [deadObj], .dead)
       | .pureDerive => (h ++ [copyObj o x], .static (o.path ++ [x]) 0)
       | .copy => (h ++ [copyObj o x], .static (o.path ++ [x]) 0)
-      | .view m => (h ++ [{ copyObj o x with parent := i, mode := m, xf := x }], .static (o.path ++ [x]) 0)
+      | .view m => (h ++ [{ copyObj o x with chain := i :: o.chain, mode := m, xf := x }], .static (o.path ++ [x]) 0)
       | .slice a b =>
         if o.mode ≠ .root then (h ++ [deadObj], .err .notImpl)
         else
           let a' := a.getD o.start
           let b' := b.getD o.stop
-          let (h1, v) := evalPrim f (fuelOf h) h i (.ts .min)
+          let (h1, v) := evalTop f h i (.ts .min)
           if v.isErr then (h1 ++ [deadObj], v)
           else
-            let (h2, w) := evalPrim f (fuelOf h) h1 i (.ts .max)
+            let (h2, w) := evalTop f h1 i (.ts .max)
             if w.isErr then (h2 ++ [deadObj], w)
             else match h2[i]?, v.windowOf with
               | some o2, some (s, e) =>
@@ -439,7 +461,7 @@ def derive (f : File) (h : Heap) (i : Nat) (x : Nat) (d : Derive) : Heap × Ans 
                 else match sliceBounds ranges a' b' o2.stop with
                   | none => (h2 ++ [deadObj], .static (o.path ++ [x]) 1)
                   | some (s', e') =>
-                    (h2 ++ [{ copyObj o2 x with start := s', stop := e' }], .pair (.int s') (.int e'))
+                    (h2 ++ [{ copyObj o2 x with start := s', stop := e', frames := none }], .pair (.int s') (.int e'))
               | _, _ => (h2 ++ [deadObj], .dead)
       | .scanFail e => ((numFrames h i).1 ++ [deadObj], .err e)
       | .scanEmpty => ((numFrames h i).1 ++ [deadObj], .static (o.path ++ [x]) 1)
@@ -448,7 +470,7 @@ def derive (f : File) (h : Heap) (i : Nat) (x : Nat) (d : Derive) : Heap × Ans 
         match h0[i]? with
         | none => (h0 ++ [deadObj], .dead)
         | some o0 =>
-          (h0 ++ [{ copyObj o0 x with parent := i, mode := .scanView, xf := x, frames := some (.static (o.path ++ [x]) 2) }],
+          (h0 ++ [{ copyObj o0 x with chain := i :: o0.chain, mode := .scanView, xf := x, frames := some (.static (o.path ++ [x]) 2) }],
             .static (o.path ++ [x]) 0)
       | .scanView =>
         -- reads `self.num_frames` (memoised in the parent's metadata), builds the view, then asks the
@@ -458,11 +480,11 @@ def derive (f : File) (h : Heap) (i : Nat) (x : Nat) (d : Derive) : Heap × Ans 
         | none => (h0 ++ [deadObj], .dead)
         | some o0 =>
           let j := h0.length
-          let h1 := h0 ++ [{ copyObj o0 x with parent := i, mode := .scanView, xf := x, frames := some (.static (o.path ++ [x]) 2) }]
-          let (h2, v) := evalPrim f (fuelOf h1) h1 j (.ts .min)
+          let h1 := h0 ++ [{ copyObj o0 x with chain := i :: o0.chain, mode := .scanView, xf := x, frames := some (.static (o.path ++ [x]) 2) }]
+          let (h2, v) := evalTop f h1 j (.ts .min)
           if v.isErr then (setObj h2 j deadObj, v)
           else
-            let (h3, w) := evalPrim f (fuelOf h1) h2 j (.ts .max)
+            let (h3, w) := evalTop f h2 j (.ts .max)
             if w.isErr then (setObj h3 j deadObj, w)
             else (h3, .pair v w)
 
@@ -475,7 +497,7 @@ deriving DecidableEq, Repr
 
 /-- the freshly constructed source object: `Kymo(name, file, start, stop, metadata)` -/
 def initObj (s e : Int) : Obj :=
-  { start := s, stop := e, cache := [], gen := 0, parent := 0, mode := .root, xf := 0, path := [], frames := none,
+  { start := s, stop := e, cache := [], gen := 0, chain := [], mode := .root, xf := 0, path := [], frames := none,
     alive := true }
 
 /-- one step; `x` = position of the op in the history (labels derivations) -/
@@ -483,14 +505,20 @@ def step (f : File) (h : Heap) (x : Nat) : Op → Heap × Ans
   | .q i q => query f h i q
   | .d i d => derive f h i x d
 
-def runFrom (f : File) : Heap → Nat → List Op → Heap × List Ans
-  | h, _, [] => (h, [])
-  | h, x, op :: ops =>
-    let (h1, a) := step f h x op
-    let (h2, as) := runFrom f h1 (x + 1) ops
-    (h2, a :: as)
+/-- a history with explicit labels (the label of a derivation names the factory closures it creates) -/
+def runL (f : File) : Heap → List (Nat × Op) → Heap × List Ans
+  | h, [] => (h, [])
+  | h, (x, op) :: rest =>
+    ((runL f (step f h x op).1 rest).1, (step f h x op).2 :: (runL f (step f h x op).1 rest).2)
 
-def run (f : File) (s e : Int) (ops : List Op) : List Ans := (runFrom f [initObj s e] 0 ops).2
+/-- every op labelled with its position in the history -/
+def labelFrom : Nat → List Op → List (Nat × Op)
+  | _, [] => []
+  | x, op :: ops => (x, op) :: labelFrom (x + 1) ops
+
+def label (ops : List Op) : List (Nat × Op) := labelFrom 0 ops
+
+def run (f : File) (s e : Int) (ops : List Op) : List Ans := (runL f [initObj s e] (label ops)).2
 
 /-! ### the fresh twin -/
 
@@ -531,13 +559,8 @@ def twinHistory (ops : List Op) (n : Nat) : List (Nat × Op) :=
       | .d i d => some (x, if anc.contains (createdId ops x) then Op.d i d else Op.d i .placeholder)
     pre ++ [(n, op)]
 
-def runLabelled (f : File) : Heap → List (Nat × Op) → Heap × Ans
-  | h, [] => (h, .dead)
-  | h, [(x, op)] => step f h x op
-  | h, (x, op) :: rest => runLabelled f (step f h x op).1 rest
-
 def fresh (f : File) (s e : Int) (ops : List Op) (n : Nat) : Ans :=
-  (runLabelled f [initObj s e] (twinHistory ops n)).2
+  ((runL f [initObj s e] (twinHistory ops n)).2.getLast?).getD .dead
 
 def freshAll (f : File) (s e : Int) (ops : List Op) : List Ans :=
   (List.range ops.length).map (fresh f s e ops)
